@@ -26,7 +26,12 @@ pub fn main(dir: &str, seed: u64) -> (i32, Value) {
     let t0 = std::time::Instant::now();
     std::fs::create_dir_all(dir).expect("scratch dir");
     let mut r = Rng::new(seed);
-    let sizes = [0usize, 1, 4, 5, 9, 10, 49, 50, 51, 127, 128, 4096, 65537, MIB - 1, MIB, MIB + 1, 2 * MIB, 3 * MIB + 7, r.range(1, 300_000) as usize, r.range(MIB as u64, 4 * MIB as u64) as usize];
+    let mut sizes = vec![0usize, 1, 4, 5, 9, 10, 49, 50, 51, 127, 128, 4095, 4096, 4097, 8192, 65535, 65536, 65537, MIB - 4097, MIB - 4096, MIB - 4095, MIB - 1, MIB, MIB + 1, 2 * MIB - 1, 2 * MIB, 2 * MIB + 1, 3 * MIB + 7];
+    for _ in 0..6 {
+        sizes.push(r.range(1, 300_000) as usize);
+        sizes.push(r.range(MIB as u64 - 9000, MIB as u64 + 9000) as usize);
+    }
+    sizes.push(r.range(MIB as u64, 4 * MIB as u64) as usize);
     let mut checks = 0u64;
     let mut viol: Vec<Value> = Vec::new();
     let mut fed = 0u64;
@@ -69,6 +74,27 @@ pub fn main(dir: &str, seed: u64) -> (i32, Value) {
         }
         let _ = std::fs::remove_file(&path);
     }
+    // a file whose metadata length is 0 although it has content (procfs): a size-based fast path must not trust it
+    for special in ["/proc/version", "/proc/self/status", "/proc/cpuinfo"] {
+        let p = std::path::Path::new(special);
+        if let Ok(back) = std::fs::read(p) {
+            if special == "/proc/self/status" {
+                continue; // content changes between reads
+            }
+            checks += 1;
+            let got = match tlsh::hash_file(p) {
+                Ok(h) => h.to_string(),
+                Err(tlsh::GeneratorOrIOError::GeneratorError(e)) => format!("Err({e:?})"),
+                Err(tlsh::GeneratorOrIOError::IOError(e)) => format!("IOError({:?})", e.kind()),
+            };
+            let want = render::<tlsh::Tlsh>(&tlsh::hash_buf(&back));
+            let again = std::fs::read(p).map(|b| b == back).unwrap_or(false);
+            if got != want && again {
+                viol.push(json!({"index": 200, "class": "hash-file-differs-from-contents", "detail": format!("{special} ({} bytes, metadata length {:?}): hash_file gives {got}, hash_buf(read(file)) gives {want}", back.len(), std::fs::metadata(p).map(|m| m.len()).ok()),
+                    "history": {"special": special}, "engine": "hashfile"}));
+            }
+        }
+    }
     // missing path and a directory
     let missing = std::path::Path::new(dir).join("does-not-exist.bin");
     checks += 2;
@@ -83,7 +109,7 @@ pub fn main(dir: &str, seed: u64) -> (i32, Value) {
     let n = viol.len();
     let rep = json!({"scenario": "c12file", "property": "C12", "seed": seed.to_string(), "evaluations": checks, "distinct": checks, "distinct_nontrivial": checks,
         "rule": "real files of threshold sizes (0 .. >3 MiB) x six entry points, each compared with hash_buf(fs::read(file)); plus missing path and directory",
-        "counters": {"sim_bytes_fed": fed * 6, "probe.file_gt_1MiB": 4, "probe.file_eq_1MiB": 1}, "samples": [{"sizes": sizes.to_vec()}],
+        "counters": {"sim_bytes_fed": fed * 6, "probe.file_gt_1MiB": sizes.iter().filter(|&&x| x > MIB).count(), "probe.file_eq_1MiB": 1}, "samples": [{"sizes": sizes.clone()}],
         "violation_count": n, "violations": viol, "wall_s": t0.elapsed().as_secs_f64()});
     (if n > 0 { 1 } else { 0 }, rep)
 }
